@@ -420,11 +420,40 @@ fn permitted_alphabet_constraint(input: Input<'_>) -> ParserResult<'_, SubtypeEl
                     map(subtype_elements, ElementOrSetOperation::Element),
                 ))),
             ),
-            |i| SubtypeElements::PermittedAlphabet(Box::new(i)),
+            |mut i| {
+                cstrings_of_alphabet(&mut i);
+                SubtypeElements::PermittedAlphabet(Box::new(i))
+            },
         )),
         skip_ws_and_comments(char(RIGHT_PARENTHESIS)),
     )
     .parse(input)
+}
+
+/// Inside `FROM (..)` every cstring is a character string, also one that happens to consist
+/// of the characters of a time value (`"12-."`) and was lexed as such.
+fn cstrings_of_alphabet(elements: &mut ElementOrSetOperation) {
+    fn as_cstring(value: &mut ASN1Value) {
+        if let ASN1Value::Time(t) = value {
+            *value = ASN1Value::String(std::mem::take(t));
+        }
+    }
+    fn in_element(element: &mut SubtypeElements) {
+        match element {
+            SubtypeElements::SingleValue { value, .. } => as_cstring(value),
+            SubtypeElements::ValueRange { min, max, .. } => {
+                min.iter_mut().chain(max.iter_mut()).for_each(as_cstring)
+            }
+            _ => (),
+        }
+    }
+    match elements {
+        ElementOrSetOperation::Element(e) => in_element(e),
+        ElementOrSetOperation::SetOperation(s) => {
+            in_element(&mut s.base);
+            cstrings_of_alphabet(&mut s.operant);
+        }
+    }
 }
 
 fn single_type_constraint(input: Input<'_>) -> ParserResult<'_, SubtypeElements> {
